@@ -19,7 +19,7 @@ K = {"US": 1, "MS": 1000, "S": 1000000}
 ANCHORS = [("utils.py", 84, 93), ("utils.py", 128, 157), ("simulator.py", 151, 224), ("simulator.py", 110, 119)]
 BOUNDS = ("time laws: all unit triples over {us,ms,s}, symbolic integer values with |value*unit| < 2^53 us "
           "(negatives and -1 included); event queue: k<=3 (quick) / 4 (thorough) events, symbolic times, "
-          "type chosen by the solver from {TASK_CANCEL,TASK_FINISHED,TASK_RELEASE,TASK_PLACEMENT,SCHEDULER_START}, "
+          "type chosen by the solver from {TASK_CANCEL,TASK_FINISHED,TASK_RELEASE,TASK_PLACEMENT,SCHEDULER_START}; plus single-type heaps of 6 (quick) / 7 (thorough) events with one removal or re-timing; "
           "scripts {add*, [pop], add*, [retime+reheapify], [remove], pop*}")
 OUTSIDE = "values at or beyond 2^53 us; queues with more than 4 events; the two simulator call sites that re-time events (covered by C03's whole-run check)"
 ASSUMPTIONS = [
@@ -53,6 +53,16 @@ def worlds(tier):
         for si, sc in enumerate(scripts):
             ws.append({"name": f"queue-k{k}-t{nty}-s{si}", "kind": "queue", "k": k, "script": sc, "nty": nty,
                        "weight": nty ** k, "split": 3 if k >= 3 else None})
+    # deeper heaps (structure bugs of sift/remove need >= 6 entries): one event type, symbolic times only
+    deep = [(6, [3]), (7, [1])] if tier == "quick" else [(6, [0, 1, 2, 3, 4, 5]), (7, [1, 3, 4, 5])]
+    for k, js in deep:
+        for j in js:
+            alladd = [("A", i) for i in range(k)]
+            ws.append({"name": f"queue-deep-k{k}-remove{j}", "kind": "queue", "k": k, "script": alladd + [("X", j)], "nty": 1,
+                       "weight": 40 * k, "split": 6 if k < 7 else 11, "plain": True})
+            if tier != "quick":
+                ws.append({"name": f"queue-deep-k{k}-retime{j}", "kind": "queue", "k": k, "script": alladd + [("R", j)], "nty": 1,
+                           "weight": 40 * k, "split": 6, "plain": True})
     return ws
 
 
@@ -239,10 +249,10 @@ def run_queue(env, w):
     k, script = w["k"], w["script"]
     evs = []
     for i in range(k):
-        unit = "MS" if (i == 1 and k >= 3) else "US"
+        unit = "MS" if (i == 1 and k >= 3 and not w.get("plain")) else "US"
         lim = 2 ** 40 // K[unit]
         t = env.int(f"t{i}", 0, lim)
-        ty = TYPES[env.choose(w["nty"], f"ty{i}")]
+        ty = EventType.SCHEDULER_START if w.get("plain") else TYPES[env.choose(w["nty"], f"ty{i}")]
         if ty in (EventType.SCHEDULER_START,):
             task = None
         else:
@@ -265,10 +275,10 @@ def run_queue(env, w):
         e = q.next()
         env.require("peek-is-next", pk is e)
         env.require("pop-member", any(e is x for x in inq))
-        for x in inq:
-            if x is not e:
-                env.require("pop-is-minimum", key_le(e, x))
-                env.require("pop-name-order", sor(snot(sand(e.time == x.time, e.event_type.value == x.event_type.value)), name_ok(e, x)))
+        others = [x for x in inq if x is not e]
+        env.require("pop-is-minimum", sand(*[key_le(e, x) for x in others]))
+        if not w.get("plain"):
+            env.require("pop-name-order", sand(*[sor(snot(sand(e.time == x.time, e.event_type.value == x.event_type.value)), name_ok(e, x)) for x in others]))
         inq[:] = [x for x in inq if x is not e]
         popped.append(e)
 
@@ -292,7 +302,7 @@ def run_queue(env, w):
                 inq[:] = [x for x in inq if x is not e]
         env.require("len", len(q) == len(inq))
         # get_next_event_of_type agrees with the definition
-        for ty in (EventType.TASK_FINISHED,):
+        for ty in (() if w.get("plain") else (EventType.TASK_FINISHED,)):
             r = q.get_next_event_of_type(ty)
             same = [x for x in inq if x.event_type == ty]
             if not same:
